@@ -585,7 +585,7 @@ fields:
 			fv.Set(reflect.ValueOf(g.ver).Convert(f.SF.Type))
 			continue
 		}
-		if !g.o.IgnoreVersions && !f.InRange(int(g.ver.ProtocolVersionMajor), int(g.ver.ProtocolVersionMinor)) {
+		if !g.o.IgnoreVersions && !f.InRangeOf(t, int(g.ver.ProtocolVersionMajor), int(g.ver.ProtocolVersionMinor)) {
 			fv.SetZero()
 			continue
 		}
